@@ -26,6 +26,7 @@ type Ctx struct {
 	L     *Loaded            // linux/amd64
 	alt   map[string]*Loaded // other configurations, lazily
 	Verif string
+	report *Report
 }
 
 func (c *Ctx) thorough() bool { return c.Tier == "thorough" }
@@ -40,6 +41,9 @@ func (c *Ctx) Alt(goos, goarch string) (*Loaded, error) {
 		return nil, err
 	}
 	c.alt[k] = l
+	if c.report != nil {
+		c.report.Alts = append(c.report.Alts, l)
+	}
 	return l, nil
 }
 
@@ -103,6 +107,7 @@ func main() {
 		}
 		c := &Ctx{Repo: *repo, Tier: *tier, L: l, alt: map[string]*Loaded{"linux/amd64": l}}
 		r := newReport(p.id, l)
+		c.report = r
 		p.run(c, r)
 		code = finish(c, p, r, *evid, *known, seed, start, *verbose)
 	}()
